@@ -14,7 +14,7 @@ RULE = ("dag_to_cpdag on every DAG with p<=5 (29,281 DAGs / 8,782 classes; 0/1 i
         "p<=4 (quick) / p=5 (thorough), Hypothesis DAGs p=6..9. Oracle: union graph of the brute-force class (i->j directed "
         "iff every member has i->j); for DAGs with >13 edges the reference algorithm (pattern + Meek closure), itself "
         "compared with brute force whenever both are computed. Non-trivial = class has >=2 members and the CPDAG has a "
-        "compelled edge outside every v-structure, or the PDAG has no extension (ValueError expected). Distinct = input graph.")
+        "compelled edge outside every v-structure, or the PDAG has no extension (ValueError expected). Distinct = input graph. Also: relabelled graphs, uint8/bool/int32/float32 presentations, tiny weights, returned matrices overwritten after use.")
 ASSUMPTIONS = [
     "oracle: union graph of the brute-force class (harness/graphs.py); reference Meek closure only beyond 13 edges, validated against brute force",
     "entries are compared as non-zero patterns; dtype free",
